@@ -96,7 +96,7 @@ def main(argv=None):
     budget = a.budget
     if budget is None:
         budget = float(importlib.import_module("vlib.props_meta").META[prop]["budget"][tier])
-    deadline = t0 + max(120.0, budget * 10)
+    deadline = t0 + max(900.0, budget * 12)
     inconclusive = []
     for i, out, p, log in procs:
         try:
